@@ -114,8 +114,8 @@ func sendCase[T any](s *Sched, ch chan<- T, v T, keep bool) selCase {
 // partner looks for a parked task with a complementary, not yet completed case on the same unbuffered channel.
 func (s *Sched) partners(c *selCase) (ts []*Task, idx []int) {
 	for _, t := range s.tasks {
-		if t == s.cur || t.done || t.pend == nil || t.pend.handed {
-			continue
+		if t == s.cur || t.done || t.pend == nil || t.pend.handed || t.pend.nonblocking {
+			continue // (a select with a default clause never waits: it cannot be the passive side of a rendezvous)
 		}
 		for i := range t.pend.cases {
 			pc := &t.pend.cases[i]
@@ -198,6 +198,7 @@ func Send[T any](ch chan<- T, v T, site string) {
 	if c.cap0 {
 		s.complete0(&c)
 		s.event(evSend, op.Obj, true)
+		s.afterRendezvous()
 		return
 	}
 	s.event(evSend, op.Obj, true)
@@ -234,6 +235,10 @@ func Recv2[T any](ch <-chan T, site string) (T, bool) {
 	s.point(op)
 	if op.handed {
 		s.event(evRecv+1<<16, op.Obj, true)
+		if op.handVal == nil {
+			var z T
+			return z, true
+		}
 		return op.handVal.(T), true
 	}
 	if c.cap0 {
@@ -242,6 +247,11 @@ func Recv2[T any](ch <-chan T, site string) (T, bool) {
 		if !ok {
 			var z T
 			return z, false
+		}
+		s.afterRendezvous()
+		if val == nil {
+			var z T
+			return z, true
 		}
 		return val.(T), true
 	}
@@ -328,7 +338,7 @@ func Select(hasDefault bool, site string, cases ...SelCase) int {
 	if mode == modeReal {
 		panic("vx.Select outside a controlled run is not supported")
 	}
-	op := &Op{Kind: "select", Site: site}
+	op := &Op{Kind: "select", Site: site, nonblocking: hasDefault}
 	op.cases = make([]selCase, len(cases))
 	lab := ""
 	for i := range cases {
@@ -393,6 +403,11 @@ func Select(hasDefault bool, site string, cases ...SelCase) int {
 		op.handVal, op.handOK = val, ok
 		op.handed = true
 		t.selHand = op
+		s.event(evSelect+uint64(ci)<<16, &c.info.obj, true)
+		if ok {
+			s.afterRendezvous()
+		}
+		return ci
 	}
 	s.event(evSelect+uint64(ci)<<16, &c.info.obj, true)
 	return ci
@@ -435,4 +450,11 @@ func SelSend[T any](ch chan<- T, v T) {
 		}
 	}
 	ch <- v
+}
+
+// afterRendezvous is the scheduling point right after an unbuffered hand-off:
+// both parties are runnable and either may proceed first.
+func (s *Sched) afterRendezvous() {
+	s.point(&Op{Kind: "after-rendezvous"})
+	s.event(0x210, nil, true)
 }
